@@ -116,18 +116,20 @@ theorem recover_err (c : Cfg) (l : LA) :
 /-- what the recorded error info says about the token list: at the moment of the error the parse
 stack was a valid path of the automaton whose frontier is exactly the tokens before the bad one,
 in the reported state, which has no default reduction and no action on the bad token -/
-def ErrAt (T : Tables) (toks : List Nat) (e : ErrInfo) : Prop :=
-  ∃ st row, Path T st ∧ topState st = e.state ∧ T.rows.get? e.state = some row ∧ row.dflt = none ∧
+def ErrAtSt (T : Tables) (toks : List Nat) (st : Stack) (e : ErrInfo) : Prop :=
+  ∃ row, Path T st ∧ topState st = e.state ∧ T.rows.get? e.state = some row ∧ row.dflt = none ∧
     match e.bad with
     | some k => k < toks.length ∧ yieldStack st = toks.take k ∧
         ∀ t, toks[k]? = some t → row.action t = .none
     | none => yieldStack st = toks ∧ row.action 0 = .none
 
+def ErrAt (T : Tables) (toks : List Nat) (e : ErrInfo) : Prop := ∃ st, ErrAtSt T toks st e
+
 /-- a step from a clean configuration either records no error or records one that satisfies `ErrAt` -/
 theorem clean_step_err (hv : Valid T) {toks : List Nat} {c : Cfg} (hc : Clean T toks false c) :
     match step T .drain false c with
-    | .inl c' => c'.err = none ∨ ∃ e, c'.err = some e ∧ ErrAt T toks e
-    | .inr (.none_ e _) => ∀ e', e = some e' → ErrAt T toks e'
+    | .inl c' => c'.err = none ∨ ∃ e, c'.err = some e ∧ ErrAtSt T toks c.st e
+    | .inr (.none_ e _) => ∀ e', e = some e' → ErrAtSt T toks c.st e'
     | .inr _ => True := by
   obtain ⟨r, hr⟩ := path_top_row hv hc.path
   unfold step
@@ -166,14 +168,16 @@ theorem clean_step_err (hv : Valid T) {toks : List Nat} {c : Cfg} (hc : Clean T 
           intro e' he'
           cases he'
           obtain ⟨hin, _⟩ := hc1.eof hla1
-          refine ⟨c1.st, r, hc1.path, by rw [hst1], hr, hd, ?_⟩
+          rw [← hst1]
+          refine ⟨r, hc1.path, rfl, hr1, hd, ?_⟩
           have hy := hc1.yld
           rw [hla1, hin] at hy
           simp only [LA.term] at hact
           exact ⟨by simpa [laToks] using hy, hact⟩
         · simp only [hle, if_false]
           -- the recorded info
-          have hE : ErrAt T toks ⟨some (c1.consumed - 1), topState c.st⟩ := by
+          have hE : ErrAtSt T toks c.st ⟨some (c1.consumed - 1), topState c.st⟩ := by
+            rw [← hst1]
             cases l with
             | eof => exact absurd rfl hle
             | err => exact absurd hla1 hc1.la
@@ -187,7 +191,7 @@ theorem clean_step_err (hv : Valid T) {toks : List Nat} {c : Cfg} (hc : Clean T 
               have hk : c1.consumed - 1 = (yieldStack c1.st).length := by omega
               have htoks : toks = yieldStack c1.st ++ ([t] ++ c1.input) := by
                 rw [← hy]; simp
-              refine ⟨c1.st, r, hc1.path, by rw [hst1], hr, hd, ?_⟩
+              refine ⟨r, hc1.path, rfl, hr1, hd, ?_⟩
               simp only [LA.term] at hact
               refine ⟨by omega, ?_, ?_⟩
               · rw [hk, htoks, List.take_left]
@@ -254,12 +258,12 @@ theorem run_errAt (hv : Valid T) (toks : List Nat) : ∀ (fuel : Nat) (c : Cfg),
       · have := run_post_err hv n c' hpost _ _ h
         rcases hs2 with h0 | ⟨e0, he0, hE⟩
         · rw [h0] at this; cases this
-        · rw [he0] at this; cases this; exact hE
+        · rw [he0] at this; cases this; exact ⟨_, hE⟩
     | inr o =>
       rw [hs] at h hs2
       simp only at h hs2
       subst h
-      exact hs2 e rfl
+      exact ⟨_, hs2 e rfl⟩
 
 /-- T19.2a for `parse` -/
 theorem parse_errAt (hv : T.valid = true) (toks : List Nat) (h0 : ∀ t ∈ toks, t ≠ 0) (fuel : Nat)
